@@ -756,6 +756,7 @@ func C17(c *core.Ctx) {
 
 	c17Round4(c)
 	c17Round4b(c)
+	c17DatasetItemFieldsPerItem(c)
 	c17DatasetFields(c)
 
 	// ---- R17.6 every dereference of an optional element of a decoded message in the
@@ -2221,4 +2222,69 @@ func c17DatasetFields(c *core.Ctx) {
 	}
 	c.Decide(len(bad) == 0, "R17.17", "dataset-field-from-its-own-accessor", "-", fmt.Sprintf("%d dataset fields filled from an accessor named like a field of the dataset, each from its own", nPairs), "a status dataset field is filled from the accessor of another field ("+strings.Join(bad, "; ")+"): the dataset does not list the current contents")
 	c.Floor("R17.17", "dataset fields filled from like-named accessors", nPairs, 6)
+}
+
+// c17DatasetItemFieldsPerItem — R17.23 "datasets list exactly the current table": the
+// optional (pointer) fields of an item of a status dataset are decided for that item. A
+// value that is carried round the loop over the table's entries — a variable declared
+// outside the loop and assigned only when the entry has the property — gives an entry
+// without the property the value of an earlier one (a permanent route listed after an
+// expiring one shows that one's expiration period). No store into a field of a freshly
+// built mgmt_2022 item takes a pointer that reaches it through a phi of the header of a
+// loop around the store.
+func c17DatasetItemFieldsPerItem(c *core.Ctx) {
+	p := c.P
+	n, bad := 0, ""
+	for _, fn := range p.FuncsIn(core.ModPath + "/fw/mgmt") {
+		if strings.HasSuffix(p.File(fn.Pos()), "_test.go") {
+			continue
+		}
+		core.Instrs(fn, func(in ssa.Instruction) {
+			st, ok := in.(*ssa.Store)
+			if !ok {
+				return
+			}
+			fa, ok := st.Addr.(*ssa.FieldAddr)
+			if !ok {
+				return
+			}
+			if _, isPtr := st.Val.Type().Underlying().(*types.Pointer); !isPtr {
+				return
+			}
+			nt, _ := core.Deref(fa.X.Type()).(*types.Named)
+			if nt == nil || nt.Obj().Pkg() == nil || !strings.HasSuffix(nt.Obj().Pkg().Path(), "/std/ndn/mgmt_2022") {
+				return
+			}
+			hs := enclosingLoops(in.Block())
+			if len(hs) == 0 {
+				return
+			}
+			n++
+			seen := map[ssa.Value]bool{}
+			var walk func(v ssa.Value, d int)
+			walk = func(v ssa.Value, d int) {
+				v = core.Strip(v)
+				if v == nil || seen[v] || d > 6 {
+					return
+				}
+				seen[v] = true
+				phi, isPhi := v.(*ssa.Phi)
+				if !isPhi {
+					return
+				}
+				for _, h := range hs {
+					if phi.Block() == h {
+						_, f := core.FieldAddrName(fa)
+						bad = fmt.Sprintf("%s.%s at %s", nt.Obj().Name(), f, c.Pos(in))
+					}
+				}
+				for _, e := range phi.Edges {
+					walk(e, d+1)
+				}
+			}
+			walk(st.Val, 0)
+		})
+	}
+	c.Decide(bad == "", "R17.23", "dataset-item-fields-decided-per-item", "-", fmt.Sprintf("%d optional fields of dataset items stored inside loops over a table, none from a value carried round the loop", n), "a status dataset fills an optional field of an item from a variable that is carried round the loop over the entries ("+bad+"): an entry without the property is listed with the value of an earlier entry — the dataset does not describe the current table")
+	c.Floor("R17.23", "optional fields of dataset items stored inside loops in fw/mgmt", n, 1)
 }
